@@ -63,7 +63,7 @@ func c01Sequential(r *core.Run) {
 		s.Mismatch = func(op, kind, reason, detail string) {
 			if kind == "accepted" {
 				switch reason {
-				case "input-spent", "input-pending", "duplicate-input-secret", "tampered-amount", "quote-paid", "quote-pending":
+				case "input-spent", "input-pending", "input-paid-out-over-lightning", "duplicate-input-secret", "tampered-amount", "quote-paid", "quote-pending":
 					r.Violate("seq:accepted:"+op+":"+reason, fmt.Sprintf("%s accepted although %s (%s)", op, reason, detail), sig, s.Tail(12))
 					return
 				}
